@@ -443,5 +443,9 @@ pub fn long_tokens() -> Vec<Case> {
 pub fn all() -> Vec<Case> {
     let mut v = cyclic_types();
     v.extend(long_tokens());
+    // the type checker's error paths: declarations of every arity (none included) × every use,
+    // and every REGISTERED function (hook `runtime_functions`) with receiver syntax on every kind of receiver
+    v.extend(super::typeerrors::degenerate());
+    v.extend(super::typeerrors::method_receivers(super::typeerrors::registry()));
     v
 }
